@@ -180,6 +180,21 @@ def fam_scale(tier):
     return [t for t in scale.scale_programs('quick') if len(P.parse(t)) <= 530] + [scale.loop_program(100)]
 
 
+def fam_prestate_size():
+    """how much the pre-executed prefix leaves behind: n values on one stack, n characters already printed"""
+    out = []
+    for n in (17, 65, 257, 300):
+        pushes = ' '.join('형' + '.' * (1 + i % 3) for i in range(n))
+        out.append('%s 흑 항... 흑... 항. %s' % (pushes, ' '.join(['흣.'] * 3 + ['항.'] * 5)))
+    for n in (257, 390):
+        out.append('%s %s 흑 항... 흑... 항. 항.' % (push(65), ' '.join(['흑... 항.'] * n)))
+    # thousands of characters written by one pre-executed command (the emitted program carries them as text)
+    wide = '흐' + '으' * 4998 + '윽'
+    out.append('%s %s. 형' % (big(5, 13), wide))
+    out.append('%s %s.. 형' % (big(5, 13), wide))
+    return out
+
+
 def fam_general(n, observers):
     out = []
     for b in bodies(G16, n):
@@ -399,7 +414,7 @@ def run_c03(tier):
         fams['dispatch'] = fam_dispatch()
         fams['general'] = fam_general(2, ['', '항. 항.']) + fam_general(3, [''])[::15]
         fams['resume'] = fam_resume(1) + fam_resume(2)[::14]
-        fams['chars'] = fam_chars() + fam_prestate_values()
+        fams['chars'] = fam_chars() + fam_prestate_values() + fam_prestate_size()
         fams['labels'] = fam_labels() + fam_bigindex() + fam_highstack() + fam_redundant_hearts()
         fams['labelflow'] = labelflow_family()[::16]
         fams['scale'] = fam_scale(tier)
@@ -410,7 +425,7 @@ def run_c03(tier):
         fams['dispatch'] = fam_dispatch()
         fams['general'] = fam_general(3, ['', '항. 항.']) + fam_general(4, [''])[::4]
         fams['resume'] = fam_resume(2) + fam_resume(3)[::6]
-        fams['chars'] = fam_chars() + fam_prestate_values()
+        fams['chars'] = fam_chars() + fam_prestate_values() + fam_prestate_size()
         fams['labels'] = fam_labels() + fam_bigindex() + fam_highstack() + fam_redundant_hearts()
         fams['labelflow'] = labelflow_family()
         fams['scale'] = fam_scale(tier)
